@@ -433,7 +433,10 @@ def core_ops_of_diff(D, keyed=False):
         op = meta(n, "operation")
         anchor = meta(n, "key" if keyed else "value")
         a = "~" if not anchor else tg.hx(anchor)
-        ident = tg.hx(n.kids[0].val if keyed and n.kids else n.val)
+        if keyed == "multi":
+            ident = ",".join(tg.hx(k.val) for k in n.kids)
+        else:
+            ident = tg.hx(n.kids[0].val if keyed and n.kids else n.val)
         if op == b"delete":
             out.append("d:" + ident)
         elif op == b"create":
@@ -476,12 +479,12 @@ def theorem_cases(cx, head, cases, tag):
         if r[0] != "ok":
             cx.disagree(COMP, l, ["ok", "?"], r)
             continue
-        if r[1] not in ("1", "2", "3", "4"):
+        if r[1] not in ("1", "2", "3", "4", "5"):
             cx.dist["thm:apply_diff_userord_flat:hypotheses-fail"] += 1
             continue
         # flatLL (leaf-list alone) / flatKL (single-key list, key-only instances) / nbLL (leaf-list between inert neighbours)
         # contLL (both trees one container holding the leaf-list between inert neighbours)
-        thm = {"1": "ll", "2": "kl", "3": "ll_neighbours", "4": "ll_in_container"}[r[1]]
+        thm = {"1": "ll", "2": "kl", "3": "ll_neighbours", "4": "ll_in_container", "5": "kl_multikey"}[r[1]]
         cx.dist["thm:apply_diff_userord_flat_%s:hypotheses-hold" % thm] += 1
         c.feat[1] = sorted(set(c.feat.get(1, [])) | {"thm-userord-flat-" + thm})
         core = r[3:]
@@ -492,7 +495,7 @@ def theorem_cases(cx, head, cases, tag):
             ok_shape = not D or (len(D) == 1 and D[0].sn is top and meta(D[0], "operation") == b"none")
             impl = core_ops_of_diff(D[0].kids) if D and ok_shape else ([] if ok_shape else ["?shape"])
         else:
-            impl = core_ops_of_diff(c.D[1], keyed=(thm == "kl"))
+            impl = core_ops_of_diff(c.D[1], keyed=("multi" if thm == "kl_multikey" else thm == "kl"))
         cx.count(("uocore", c.s.name, c.a, c.b), bool(core), "diff:uocore-%s:%s" % (thm, "ops" if core else "empty"))
         if impl != core:
             cx.dist["thm:apply_diff_userord_flat_%s:libyang-diff-differs-from-core" % thm] += 1
@@ -621,6 +624,20 @@ def exhaustive(cx):
         total += len(cases)
         for lo in range(0, len(cases), 6000):
             process(cx, [s], cases[lo:lo + 6000], tag="xklonly%d.%d" % (nk, lo), laws=True, apply3=False, law_mod=3 if nk >= 5 else 1)
+    # the class of Props.C06UO.apply_diff_userord_flat_kl_multikey: a module whose only node is a user-ordered list with TWO keys,
+    # key-only instances; identities = pairs of key values (flatMK, reply code 5)
+    s = tg.Schema("uok2only", [tg.SNode("list", "ul", keys=["k1", "k2"], userord=True, kids=[
+        tg.SNode("leaf", "k1", ty=tg.Ty("string"), iskey=True), tg.SNode("leaf", "k2", ty=tg.Ty("string"), iskey=True)])])
+    pairs = [(b"a", b"x"), (b"a", b"y y"), (b"b'", b"x"), (b'c"', b"y y"), (b"a", b"z'")]
+    def inst2(k):
+        return tg.DN(s.top[0], None, [tg.DN(s.top[0].kids[0], pairs[k][0]), tg.DN(s.top[0].kids[1], pairs[k][1])])
+    for nk, mod in (((5, 4), (4, 1)) if thorough else ((4, 6), (3, 1))):
+        seqs = tg.all_nodup_seqs(nk)
+        cases = [Case(s, [inst2(k) for k in x], [inst2(k) for k in y], "userord-k2only")
+                 for ia, x in enumerate(seqs) for ib, y in enumerate(seqs) if mod == 1 or (ia * 7 + ib) % mod == 0]
+        total += len(cases)
+        for lo in range(0, len(cases), 6000):
+            process(cx, [s], cases[lo:lo + 6000], tag="xk2only%d.%d" % (nk, lo), laws=True, apply3=False, law_mod=3 if nk >= 5 else 1)
     cx.exhaustive = True
     cx.notes.append("exhaustive: %d ordered pairs of duplicate-free user-ordered sequences; complete at the top level for %s"
                     % (total, ", ".join(complete)))
